@@ -53,7 +53,8 @@ def run(ctx, rep):
         return any(c.path in DSM for c in cs) and any(c.path in DECOMP for c in cs)
     both = [f for f in prog.fns if f.kind != "closure" and reaches_both(f)]
     bk = {f.key for f in both}
-    vs = [f for f in both if not any(g.key in bk and g.key != f.key for g in prog.callees(f))]
+    # lowest: no other function reachable from it (through calls or its closures) reaches both
+    vs = [f for f in both if not any(k in bk and k != f.key for k in prog.reach_fns([f]))]
     rep.floor("signature-decoding verifier functions", len(vs), 1)
     for v in vs:
         verifier(rep, prog, inline(prog, v))
@@ -186,8 +187,12 @@ def verifier(rep, prog, v):
 
 
 def callers(rep, prog, vs):
+    from ..inline import inline
     cand_keys = cm.can_reach(prog, vs)
-    cands = [prog.by_key[k] for k in cand_keys if returns_result(prog.by_key[k])]
+    # callers are analysed with their closures / private helpers folded in
+    vk0 = {v.key for v in vs}
+    cands = [inline(prog, prog.by_key[k], keep=(lambda g: g.key in vk0,)) if k not in vk0 else prog.by_key[k]
+             for k in cand_keys if returns_result(prog.by_key[k]) and prog.by_key[k].kind != "closure"]
     vkeys = {v.key for v in vs}
 
     def prims(f):
